@@ -372,6 +372,7 @@ let step_preds : (string * (vconfig -> fstep -> bool)) list = [
 let trace_preds : (string * (vconfig -> fstep list -> bool)) list = [
   ("c10_step_ok", c10_step_ok);
   ("c04_vsock_ack_ok", c04_vsock_ack_ok);
+  ("c04_consumed_honest_ok", c04_consumed_honest_ok);
   ("c05_slow_start_ok", c05_slow_start_ok);
   ("c04_d19_class", c04_d19_class);
   ("c02_prompt", c02_prompt);
